@@ -60,7 +60,7 @@ CHECKS = {
             "Dense ndarray flux matrices; num_paths >= 1; decisions within 1e-9 of the cutoff not judged.",
             "DESIGN.md §2 C17"),
     "C19": ("fault_enumeration",
-            "Fault injection (pre-filled outputs for every masked ufunc without out= and every np.empty/empty_like, 5 fill patterns) + metamorphic relations (repeat, rebuilt arguments, thread counts, preceding call history, argument immutability, in-place refill of the argument arrays followed by an immediate second call, results keep their value across later calls) over a registry of ~60 numerical routines with Hypothesis-generated arguments, plus the >= 1000-state iterative eigen-solver branch and worker-process bootstrap; AST pass as denominator",
+            "Fault injection (pre-filled outputs for every masked ufunc without out= and every np.empty/empty_like, 5 fill patterns) + metamorphic relations (repeat, rebuilt arguments, thread counts, preceding call history, argument immutability, in-place refill of the argument arrays followed by an immediate second call, results keep their value across later calls, worker-process counts incl. every (states, workers) pair of BACE pruning in thorough) over a registry of ~60 numerical routines with Hypothesis-generated arguments, plus the >= 1000-state iterative eigen-solver branch and worker-process bootstrap; AST pass as denominator",
             "For each generated call the result must be bit-identical under every injected heap fill, every thread count, after any generated prefix of other library calls and on repetition, and arguments must be unchanged. The evidence lists which masked call sites / empty allocations the wrappers actually observed against the AST-derived list.",
             "Heap contents are modelled by pre-filling buffers numpy is left to allocate, not by driving malloc; OpenMP schedules not controllable.",
             "DESIGN.md §2 C19"),
@@ -85,9 +85,9 @@ CHECKS = {
             "2*OPT bound asserted only where Gonzalez' theorem applies (cold start or single data-frame init); n_clusters=None with cutoff 0 outside the domain.",
             "DESIGN.md §2 C02"),
     "C04": ("exploration",
-            "Hypothesis-generated count matrices (strongly connected by construction where required) x 9 containers x priors x population flag vs dense reference arithmetic; stationarity / detailed-balance residuals; differential dense vs every sparse format; input snapshots incl. sparse internals; exhaustive builder x layout x prior product on a fixed matrix",
+            "Hypothesis-generated count matrices (strongly connected by construction where required) x 9 containers x priors x population flag vs dense reference arithmetic; stationarity / detailed-balance residuals; differential dense vs every sparse format (matrix and array flavours, non-canonical layouts, 64-bit indices); input snapshots incl. sparse internals; result ownership across builds; metastable 1000+-state chains with closed-form populations; exhaustive builder x layout x prior product on a fixed matrix",
             "Generated-input search against closed-form dense references (row normalisation, symmetrisation, stationary solve) with residual tolerances 1e-9..1e-13; container type and input immutability are checked structurally.",
-            "scipy *_array containers observed, not asserted; np.matrix accepted as legitimately densified result.",
+            "scipy *_array containers asserted like their matrix counterparts (clause sparse_arrays); np.matrix accepted as legitimately densified result.",
             "DESIGN.md §2 C04"),
     "C07": ("exploration",
             "Hypothesis-generated irreducible chains (dense positive, sparse+cycle, reversible, periodic) x source/sink sets x containers x lag times: residuals of the first-step equations computed with dense numpy, all-pairs vs single-sink differential, lag-time scaling, dense vs sparse, inputs unchanged",
@@ -105,7 +105,7 @@ CHECKS = {
             "Distinct points; cold k-medoids limited to k where k random frames are distinct with probability >= 1e-3.",
             "DESIGN.md §2 C09"),
     "C12": ("exploration",
-            "Hypothesis-generated strongly connected count matrices (integer/real, symmetric to 10^3-skewed, with zeros): termination without internal assertion, log-likelihood vs generated reversible competitors / transpose estimate / independent fixed point, Prinz self-consistency residual, compiled vs pure-Python differential, non-convergence warning; exhaustive 3-state {0,1,4} matrices in thorough",
+            "Hypothesis-generated strongly connected count matrices (integer/real, symmetric to 10^3-skewed, with zeros): termination without internal assertion, log-likelihood vs generated reversible competitors / transpose estimate / independent fixed point, Prinz self-consistency residual, compiled vs pure-Python differential, thread-count metamorphic relation on 129..257 states, non-convergence warning; exhaustive 3-state {0,1,4} matrices in thorough",
             "Generated-input search with likelihood-dominance and fixed-point residual oracles plus a differential between the two implementations; one recorded known finding (round-off breakdown on ill-conditioned matrices).",
             "Tolerances tolR = tolD = 1e-5, tolL = 1e-8(1+|L|) calibrated at design time; cases needing > 3000 python sweeps skipped (<1%).",
             "DESIGN.md §2 C12"),
